@@ -1587,7 +1587,31 @@ def c11(ctx):
             if a['k'] != 'const' and clean_ty(a['pl']['ty']).startswith('{closure:'):
                 job_closures.add(clean_ty(a['pl']['ty'])[9:-1])
     key = 'PipeContext::poll|pollfn-in-job'
-    inside = all(any(k.name.startswith(j) for j in job_closures) for k in pollfn_calls)
+    # nothing that PipeContext::poll itself runs or builds - other than the job it hands to future_desync - reaches a call of the poll function
+    # (call graph + "constructs this closure / coroutine" edges; the body of the job may live in helper functions of any name)
+    def _constructed(fn_):
+        outc = set()
+        for b_ in fn_.blocks:
+            for s_ in b_['stmts']:
+                if s_['k'] == 'assign' and s_['rv']['k'] == 'agg' and s_['rv'].get('ak') in ('closure', 'coroutine') and s_['rv'].get('def'):
+                    outc.add(s_['rv']['def'])
+        return outc
+    skip_sites = set(bb for bb, t in calls(pp, 'Desync::future_desync'))
+    seen_, work_ = set(), [pp.name]
+    while work_:
+        fnm = work_.pop()
+        if fnm in seen_ or fnm in job_closures:
+            continue
+        seen_.add(fnm)
+        f_ = F.fn(fnm)
+        if not f_:
+            continue
+        for s_, c_ in g.sync_edges(fnm):
+            if fnm == pp.name and s_.bb in skip_sites:
+                continue
+            work_.append(c_)
+        work_.extend(_constructed(f_))
+    inside = not any(k.name in seen_ for k in pollfn_calls) and bool(job_closures)
     if pollfn_calls and inside:
         out.append(ok(R, key, 'the poll function is invoked only inside the job scheduled with future_desync on the target', fn=pp.name))
     else:
